@@ -229,7 +229,7 @@ def run(ctx):
         ctx.violation('builtin-lookup-differs-from-rule', b, 'built-in spec lookup differs from the rule: %s' % b)
 
     # ---- broken proof / correspondence without a failing input
-    if not ctx.violations and not ctx.known_printed:
+    if not ctx.violations:   # a printed KNOWN-FINDING must not hide a broken proof / model / correspondence
         if not built:
             ctx.violation('proof-broken', {'theorems': [o[0] for o in ctx.obligations if not o[1]], 'log': getattr(ctx, 'broken_log', '')[-3000:]},
                           'Props/C15.v no longer checks', no_input=True)
